@@ -503,11 +503,16 @@ func (x *fnTr) asmCall(call *ast.CallExpr, key string, sp ctAsmSpec, pre *[]stri
 			zero := isConst && c == "0"
 			base := x.expr(ix.X, pre)
 			idx := ""
+			// `&a[i]` is an index expression: Go panics when i ≥ len(a) (also for i = 0 on an empty slice).  The element
+			// is read into the blank variable, so that the run is stuck exactly then (arguments are evaluated left to right,
+			// before the frame record and the call)
 			if zero {
 				vals = append(vals, base)
+				*pre = append(*pre, fmt.Sprintf(".assign %d [] (.idxc %s 0)", x.junk, base))
 			} else {
 				b := x.hoist(base, pre)
 				idx = x.hoist(x.expr(ix.Index, pre), pre)
+				*pre = append(*pre, fmt.Sprintf(".assign %d [] (.idx %s %s)", x.junk, b, idx))
 				vals = append(vals, fmt.Sprintf("(.slice %s %s (.len %s))", b, idx, b))
 			}
 			if isWritten(k) {
